@@ -11,7 +11,8 @@ values. Property predicate on the OBSERVED values, by brute force over all valua
 -/
 namespace B.Drive.C15
 open B B.Drive B.Parser B.ExprM
-open B.Drive.C14 (sexp unsexp dec decRaw enc reference)
+open B.Drive.C14 (sexp unsexp dec decRaw enc)
+open B.ParserRef (reference)
 
 def parseNames (s : String) : Option (List Name) :=
   if s == "~" then some [] else (s.splitOn ",").mapM decRaw
